@@ -1,0 +1,34 @@
+//! Verification hooks (feature `verif-hooks`, off by default).
+//!
+//! Thin wrappers that expose crate-private functions to the external
+//! verification harness. Nothing in here is used by the compiler itself.
+
+use crate::generator::rasn::Rasn;
+
+fn rasn() -> Rasn {
+    Rasn::default()
+}
+
+pub fn rust_snake_case(s: &str) -> String {
+    rasn().to_rust_snake_case(s).to_string()
+}
+
+pub fn rust_const_case(s: &str) -> String {
+    rasn().to_rust_const_case(s).to_string()
+}
+
+pub fn rust_enum_identifier(s: &str) -> String {
+    rasn().to_rust_enum_identifier(s).to_string()
+}
+
+pub fn rust_title_case(s: &str) -> String {
+    rasn().to_rust_title_case(s).to_string()
+}
+
+pub fn rust_qualified_type(module: Option<&str>, ty: &str) -> String {
+    rasn().to_rust_qualified_type(module, ty).to_string()
+}
+
+pub fn int_type_token(min: Option<i128>, max: Option<i128>, ext: bool) -> String {
+    rasn().int_type_token(min, max, ext).to_string()
+}
